@@ -76,6 +76,7 @@ LEVEL_NOTE = ("Trusted: Lean kernel; axioms propext/Classical.choice/Quot.sound 
               "unreachable final else of handle_ccp_brace_syntax, bootstrap's own argument checks and the banner / macro passes of the "
               "indentation syntaxes (C01/C07), which a brace syntax skips.")
 LEVEL_NOTE += (" " + "regexes_as_modelled (Ccp.RxC08): the arguments of the pyparsing calls reached from BraceParse.__init__ (Word(printables, exclude_chars='{}'), White(' '), nested_expr(opener='{', closer='}', content=..) without ignore_expr, parse_string('{'+txt+'}') without parse_all), the ';' test, and the constants of the installed pyparsing (printables, DEFAULT_WHITE_CHARS, the two quoted_string regexes, the ignore_expr / parse_all defaults) are re-read on every run and proved equal to what Model/Brace.lean was written for.")
+LEVEL_NOTE += (" Scan sets as revised: regexes_as_modelled ties the regex-engine calls with the pattern in canonical form (canonical verbose form without the flag, group names and redundant escapes removed, per-value specialisation of a pattern passed to a same-file helper or built from a name that ranges over a constant collection, always-true searches left out), flags, re.sub replacements and the separator arguments of str.split/join/replace/strip; the literal tests (\"lit\" in x, == against string literals and their subscripts, startswith) are informational definitions Gen.rx...Info, no theorem is about them.")
 EXHAUSTIVE = {"quick": False, "thorough": False}
 ASSUMPTIONS = [
     "pyparsing 3.1.1 nested_expr/quoted_string/expandtabs behave as the hand-written tokenizer (measured, not proved)",
